@@ -630,8 +630,15 @@ func c06DrawProgress(c *Ctx, p *Prog) {
 	// (x += width-1 with x++, x += width, a floor applied to the width first or in the step …): a
 	// lower bound of (next x) - x over every way round the loop
 	okStep, detail := false, "column loop not recognised"
-	for _, call := range callsIn(draw, func(n string, _ *ssa.CallCommon) bool { return strings.HasSuffix(n, "tScreen).drawCell") }) {
-		for h, body := range loopsOf(draw) {
+	// (the loop is in draw, or in the helper that paints one row for it)
+	var dcCalls []ssa.Instruction
+	for _, d := range deepInstrs(p, draw, 2, func(_ ssa.Instruction, callee *ssa.Function) bool { return callee.Name() != "drawCell" }) {
+		if cc := callCommon(d.in); cc != nil && strings.HasSuffix(calleeName(cc), "tScreen).drawCell") {
+			dcCalls = append(dcCalls, d.in)
+		}
+	}
+	for _, call := range dcCalls {
+		for h, body := range loopsOf(call.Parent()) {
 			if !body[call.Block()] {
 				continue
 			}
